@@ -504,6 +504,7 @@ def check(prop, tier, only, jobs, seed):
     # second chance for harnesses that ran out of time/memory: the other SAT back end
     # (measured: minisat and cadical differ by 10x in either direction depending on the harness)
     retry = [h for h in sel if h["name"] in results and classify(results[h["name"]])[0] == "inconclusive"
+             and results[h["name"]]["status"] != "success"
              and not results[h["name"]]["failed"] and os.environ.get("VERIF_NO_FALLBACK") != "1"]
     if retry:
         by = {}
